@@ -187,19 +187,33 @@ def worker_main(job_path):
                     out["services"][key] = {"error": f"{type(e).__name__}: {str(e)[:400]}"}
     for i, case in enumerate(job["values"]):
         r = {"i": i}
+
+        def step(name, fn):
+            try:
+                r[name] = fn()
+            except BaseException as e:  # noqa
+                r[name] = f"ERR:{type(e).__name__}"
+                r.setdefault("detail", {})[name] = f"{type(e).__name__}: {str(e)[:300]}"
+                return None
+            return r[name]
+
         try:
             cls = _lookup(case["cls"], mods, root)
             obj = cls(**{_pyfield(k): _build(v, mods, root) for k, v in case["fields"].items()})
-            r["bytes"] = bytes(obj).hex()
-            r["json"] = obj.to_json()
-            back = cls().parse(bytes(obj))
-            r["reparse_bytes"] = bytes(back).hex()
-            r["reparse_json"] = back.to_json()
-            r["from_json_bytes"] = bytes(cls().from_json(r["json"])).hex()
+            r["construct"] = "ok"
         except BaseException as e:  # noqa
-            r["error"] = f"{type(e).__name__}: {str(e)[:300]}"
-            if os.environ.get("C18_DEBUG"):
-                r["tb"] = traceback.format_exc()[-1500:]
+            r["construct"] = f"ERR:{type(e).__name__}"
+            r["detail"] = {"construct": f"{type(e).__name__}: {str(e)[:400]}"}
+            out["values"].append(r)
+            continue
+        b = step("bytes", lambda: bytes(obj).hex())
+        j = step("json", lambda: obj.to_json())
+        step("len", lambda: len(obj))
+        if b is not None:
+            step("reparse_bytes", lambda: bytes(cls().parse(bytes.fromhex(b))).hex())
+            step("reparse_json", lambda: cls().parse(bytes.fromhex(b)).to_json())
+        if j is not None:
+            step("from_json_bytes", lambda: bytes(cls().from_json(j)).hex())
         out["values"].append(r)
     json.dump(out, open(job["out"], "w"))
 
